@@ -689,7 +689,12 @@ class Sym:
         return Sym(k)
 
     def __hash__(s):
-        return hash(s.__index__())
+        if s.isint:
+            return hash(s.__index__())
+        # a symbolic real used as a dict/set key: only possible by pinning it to its model value (counted as realised)
+        if getattr(ENGINE, 'allow_realise', False):
+            return hash(float(ENGINE.realise(s.e)))
+        raise Unsupported("hash of a symbolic real")
 
     def __repr__(s):
         return f"Sym({s.e})"
